@@ -1,17 +1,21 @@
-"""C04 — schema stays referentially intact; earlier versions stay frozen.   (Layer 1)
+"""C04 — schema stays referentially intact; earlier versions stay frozen.
 
 Proof: coq/theories/C04 — executable model of edb/schema/schema.py::FlatSchema's raw API
        (add_raw/add, update_obj, set_obj_field, unset_obj_field, delete, discard, delist) and of
        the ChainedSchema router; theorems for every class table, every shortname function and
-       every finite operation sequence (Props.v).
-Tie:   correspondence — the real FlatSchema / ChainedSchema (real schema object classes, loaded
-       under the stub installer) and the OCaml-extracted model run on the same operation
-       sequences; status of every op and the canonical dump of all six indexes after every op
+       every finite operation sequence (Props.v); computed counter-examples (Refuted.v).
+       A guarded command layer (create/alter/drop with reference guards) is proved to keep
+       references resolvable — MODEL ONLY, it is not tied to edb/schema/delta.py.
+Tie, layer 1: correspondence — the real FlatSchema / ChainedSchema (real schema object classes,
+       loaded under the stub installer) and the OCaml-extracted model run on the same operation
+       sequences; the status of every op and the canonical dump of all six indexes after every op
        are compared.  Monitors (harness/impl/c04_impl.py) evaluate the property directly on the
        real schema values: indexes recomputed from scratch, public lookups vs object data,
        dropped objects unreachable, rejected op => identical schema, earlier values frozen.
-Layer 2: DDL histories through the real delta commands (substrate) - monitors only; the guarded
-command layer of the Coq model (C04_cmd_*) is not tied to edb/schema/delta.py.
+Layer 2: generated DDL histories applied through the REAL delta commands (runtime substrate
+       harness/rt: parser substitute + real std schema); monitors only: every reference of every
+       user object resolves, indexes recomputed, lookups agree, dropped objects unreachable,
+       rejected statement => identical schema, earlier schema values frozen.
 """
 from __future__ import annotations
 
@@ -535,8 +539,8 @@ def gen_cases(tier):
     ncorpus = len(cases)
     if tier == 'quick':
         cases += list(exhaustive_cases(3))
-        cases += [random_case(rnd, 14) for _ in range(9000)]
-        cases += [random_case(rnd, 30) for _ in range(1000)]
+        cases += [random_case(rnd, 14) for _ in range(7000)]
+        cases += [random_case(rnd, 30) for _ in range(800)]
         cases += [mismatch_case(rnd, 10) for _ in range(500)]
     else:
         cases += list(exhaustive_cases(3))
@@ -894,7 +898,7 @@ DDL_CORPUS = [
 def gen_ddl(tier):
     rnd = lib.rng('C04ddl')
     hs = [list(h) for h in DDL_CORPUS]
-    n = 320 if tier == 'quick' else 6000
+    n = 240 if tier == 'quick' else 4000
     hs += [ddl_history(rnd, 15) for _ in range(n)]
     return hs
 
@@ -948,6 +952,7 @@ def ddl_stats(hs, res):
             acc += x == 'ok'
             rej += x != 'ok'
     sizes = [int(r.split(' !')[0].split('#')[1]) for r in res if '#' in r]
+    classes = sorted({c for r in res if r.count('#') >= 2 for c in r.split(' !')[0].split('#')[2].split(',') if c})
     return {
         'what': 'DDL histories (<= 16 statements: create/alter/rename/drop of types, properties, links, link '
                 'properties, indexes, constraints, scalars, annotations, functions, aliases, globals, access '
@@ -964,6 +969,7 @@ def ddl_stats(hs, res):
         'statement_kinds_accepted_rejected': {k: list(v) for k, v in sorted(kinds.items())},
         'final_user_objects_avg': round(sum(sizes) / max(1, len(sizes)), 1),
         'final_user_objects_max': max(sizes) if sizes else 0,
+        'object_classes_in_user_schemas': classes,
         'monitor_failures': len([r for r in res if ' !' in r]),
         'sample': hs[len(hs) // 2],
     }
@@ -1113,8 +1119,10 @@ def coq_case(case):
 
 # ---------------------------------------------------------------- run
 def run(tier):
+    import time as _t
     rep = lib.Report(PROP, tier, 'proof')
     thorough = tier == 'thorough'
+    T = {'start': _t.time()}
     pf = lib.proof_stage(rep, 'C04', THEOREMS, extra_targets=['theories/C04/Refuted.vo'], thorough=thorough)
     # the ..._refuted theorems (computed witnesses, replayed from corpus/C04/refuted_*.json)
     rok, rproved, rlog = lib.coq_props('C04', 'Refuted.v') if pf['ok'] else (False, {}, '')
@@ -1125,14 +1133,18 @@ def run(tier):
             pf['log'] += rlog[-2000:]
     rep.coverage['refuted_theorems'] = {t: ('closed under the global context' if rproved.get(t) == [] else 'NOT CHECKED')
                                         for t in REFUTED}
+    T['proof'] = _t.time()
     exe, blog = lib.build_model('c04', 'ExtractC04.v', 'c04_main.ml', 'C04_ext')
+    T['extract'] = _t.time()
 
     d = desc()
     tie_bad = [c['name'] for c in d['classes'] if not c['reducible_equals_refs'] or c['name_is_ref']]
 
     cases, ncorpus = gen_cases(tier)
     lines = [enc(c) for c in cases]
+    T['generate'] = _t.time()
     impl = run_impl(lines)
+    T['layer1_impl'] = _t.time()
     in_model = [i for i, c in enumerate(cases) if c[0] != 'X']
     model = None
     if exe:
@@ -1161,6 +1173,7 @@ def run(tier):
             if ','.join(re.findall(r'\d+', o.replace('%N', ''))) != rw:
                 coq_diff.append(i)
 
+    T['model_and_coq_eval'] = _t.time()
     # ---- Layer 2: DDL histories through the real delta commands (monitors only)
     ddl_hist, ddl_res, ddl_err = gen_ddl(tier), [], None
     try:
@@ -1169,6 +1182,7 @@ def run(tier):
     except Exception as e:  # noqa
         ddl_err = str(e)[-1500:]
     ddl_fail = [i for i, r in enumerate(ddl_res) if ' !' in r]
+    T['layer2_ddl'] = _t.time()
 
     # ---- verdict
     known = lib.known_findings(PROP)
@@ -1302,6 +1316,7 @@ def run(tier):
         'stub_installer': d['stubs'],
         'schema_py_sha256': d['schema_py_sha'],
         'layer2_ddl': ddl_stats(ddl_hist, ddl_res),
+        'stage_seconds': {k: round(T[k] - T[p_], 1) for p_, k in zip(list(T), list(T)[1:])},
         'trusted_base': [
             'Coq 8.16.1 kernel (coqc; coqchk in the thorough tier); vm_compute only in cases.v evaluation',
             'extraction: ExtrOcamlBasic only, N/positive/nat kept inductive; OCaml 4.13.1; ocaml/conv.ml + c04_main.ml '
